@@ -300,10 +300,21 @@ func diffResult(q queryDef, a, b *commonmodels.ResultSet, values bool) string {
 	idx := func(rs *commonmodels.ResultSet) map[string]map[int64]float64 {
 		m := map[string]map[int64]float64{}
 		for _, s := range rs.Series {
-			if len(s.Fields[fname]) == 0 {
+			vals := s.Fields[fname]
+			if q.kind == "quantile" {
+				// lindb answers 0 for a slot without observations (a quantile of observations is never 0 with
+				// these bounds): 0 is "no value" here, as in the comparison with the model
+				vals = map[int64]float64{}
+				for t, v := range s.Fields[fname] {
+					if v != 0 {
+						vals[t] = v
+					}
+				}
+			}
+			if len(vals) == 0 {
 				continue
 			}
-			m[groupKey(q, s)] = s.Fields[fname]
+			m[groupKey(q, s)] = vals
 		}
 		return m
 	}
@@ -324,7 +335,7 @@ func diffResult(q queryDef, a, b *commonmodels.ResultSet, values bool) string {
 		va, oka := ma[k]
 		vb, okb := mb[k]
 		if oka != okb {
-			return fmt.Sprintf("group %q present=%v / present=%v", k, oka, okb)
+			return fmt.Sprintf("group %q present=%v / present=%v (%d / %d values)", k, oka, okb, len(va), len(vb))
 		}
 		if len(va) != len(vb) {
 			return fmt.Sprintf("group %q has %d / %d slots", k, len(va), len(vb))
